@@ -61,12 +61,28 @@ Definition evs2 (b : block) : list (N * pev2) :=
   ++ map (fun id => (id, PRen2)) (bRen2 b)
   ++ map (fun id => (id, PFail2)) (bFail2 b).
 
-(* the changes of a block that concern contract [id], in the order ApplyContracts (and
-   RevertContracts: the same order, not the reverse one) goes through them *)
+(* the changes of a block that concern contract [id], in the order ApplyContracts goes through
+   them (RevertContracts: [revl1_of] for v1 — the same order with the formation last —, the same
+   order for v2) *)
 Definition evl1_of (id : N) (b : block) : list pev1 :=
   map snd (filter (fun p => fst p =? id) (evs1 b)).
 Definition evl2_of (id : N) (b : block) : list pev2 :=
   map snd (filter (fun p => fst p =? id) (evs2 b)).
+
+(* RevertContracts goes through the v1 lists in the order revised, successful, failed, confirmed
+   (formations last: a contract formed and resolved in one block is active again only after its
+   resolution has been reverted); the v2 lists in the order of ApplyContracts *)
+Definition revs1 (b : block) : list (N * pev1) :=
+  map (fun t => (fst (fst t), PRev1 (snd (fst t)) (snd t))) (bRev1 b)
+  ++ map (fun id => (id, PSucc1)) (bSucc1 b)
+  ++ map (fun id => (id, PFail1)) (bFail1 b)
+  ++ map (fun id => (id, PForm1)) (bConf1 b).
+Definition revl1_of (id : N) (b : block) : list pev1 :=
+  map snd (filter (fun p => fst p =? id) (revs1 b)).
+(* the same on the changes of one contract: its formation moves to the end *)
+Definition is_form1 (e : pev1) : bool := match e with PForm1 => true | _ => false end.
+Definition rorder1 (l : list pev1) : list pev1 :=
+  filter (fun e => negb (is_form1 e)) l ++ filter is_form1 l.
 
 (* the contracts a block mentions *)
 Definition ids1_of (b : block) : list N := map fst (evs1 b).
@@ -125,7 +141,7 @@ Definition rspec_ev1 (e : pev1) (x : ch1) : ch1 :=
   | PRev1 o _ => mkH1 (h_st x) (h_formed x) o (h_res x)
   | PSucc1 | PFail1 => mkH1 Active (h_formed x) (h_conf x) None
   end.
-(* RevertContracts goes through the lists in the same order as ApplyContracts *)
+(* un-processing a list of changes in the given order (for a block: [rorder1] of its changes) *)
 Definition rspec_evs1 (l : list pev1) (x : ch1) : ch1 := fold_left (fun x e => rspec_ev1 e x) l x.
 
 Definition spec_ev2 (i : idx) (e : pev2) (x : ch2) : ch2 :=
@@ -217,6 +233,19 @@ Fixpoint valid_evs2 (i : idx) (l : list pev2) (x : ch2) : Prop :=
        confirmed and as revised (from 0, the value insertContract wrote), each list in the
        order of the diffs;
      - [PForm1] alone: what buildContractState recorded before that repair; the same as k = 0;
+     - [PForm1; PRev1 0 k; PSucc1]: created AND proven in one block.  A formation needs
+       WindowStart >= childHeight (validateFileContracts: "has window that starts in the past"), a
+       storage proof of a contract touched in the block WindowStart == childHeight
+       (storageProofWindowID: ms.elements[id] with WindowStart == childHeight), so consensus
+       allows both exactly when the formation is confirmed in the block at its window start; the
+       RHP validators bound WindowStart against the height of the NEGOTIATION (rhp/v2, rhp/v3
+       contracts.go: WindowStart >= currentHeight + WindowSize), not of the confirming block, and an
+       empty contract needs no Merkle proof (anybody can submit it).  The diff has Created and
+       Resolved set, its element is the created contract (nothing is lost for the revert);
+       buildContractState records all three (fixes/C01-v1-created-and-resolved-same-block.patch),
+       RevertContracts undoes the formation last.  [PForm1; PRev1 0 k; PFail1] is admitted too:
+       consensus excludes it (a missed resolution needs childHeight >= WindowEnd > WindowStart >=
+       childHeight), the theorems only get wider;
      - [PRev1 o n]: revised (several revisions of one block are merged into the last one);
      - [PSucc1] / [PFail1]: resolved by a storage proof / at the end of the proof window.
    Excluded for v1:
@@ -231,10 +260,7 @@ Fixpoint valid_evs2 (i : idx) (l : list pev2) (x : ch2) : Prop :=
        the revision number the chain held before the block is not in the diff and a revert
        cannot restore it.  Not covered by the theorems (known finding
        v1-revision-and-proof-same-block-revert-keeps-revision; the connect direction is repaired,
-       fixes/C01-v1-revised-and-proven-same-block.patch, Build.v [build1_res]);
-     - created and resolved in one block: core allows it for a contract whose WindowStart is the
-       height of its own formation block; the host never signs such a contract (rhp/v2 and
-       rhp/v3 contracts.go refuse fc.WindowStart < currentHeight + settings.WindowSize).
+       fixes/C01-v1-revised-and-proven-same-block.patch, Build.v [build1_res]).
    v2 ([shape2]):
      - none; [PForm2 r]: created with revision number r;
      - [PRev2 o n]: revised; [PSucc2] / [PRen2] / [PFail2]: resolved;
@@ -255,6 +281,7 @@ Fixpoint valid_evs2 (i : idx) (l : list pev2) (x : ch2) : Prop :=
 Definition shape1 (l : list pev1) : Prop :=
   match l with
   | [] | [PForm1] | [PForm1; PRev1 0 _] | [PRev1 _ _] | [PSucc1] | [PFail1] => True
+  | [PForm1; PRev1 0 _; PSucc1] | [PForm1; PRev1 0 _; PFail1] => True
   | _ => False
   end.
 Definition is_res2 (e : pev2) : bool :=
